@@ -12,9 +12,20 @@ Module C16.
        (gets : list (bytes * option bytes * bool))
        (froms : list (bytes * list kv))
        (betw : list (bytes * bytes * option (list kv)))
+       (* second phase: insert (k, v); the map scanned from q before and after, Contains q and Size after *)
+       (late : list (bytes * bytes * bytes * list kv * list kv * bool * nat))
   | PQ (inputs : list (list (res kv))) (out : list (bytes * bytes * N)) (status : N).
 
   Definition dKV := dPair dB dB.
+
+  Definition dLate (s : sx) :=
+    match s with
+    | L [k; v; q; before; after; has; sz] =>
+        do k' <- dB k; do v' <- dB v; do q' <- dB q; do b' <- dList dKV before; do a' <- dList dKV after;
+        do h' <- dBool has; do s' <- dNat sz;
+        Some (k', v', q', b', a', h', s')
+    | _ => None
+    end.
 
   Definition decode (s : sx) : option case :=
     match s with
@@ -25,7 +36,16 @@ Module C16.
         do gets' <- dList (dTriple dB dOB dBool) gets;
         do froms' <- dList (dPair dB (dList dKV)) froms;
         do betw' <- dList (dTriple dB dB (dOpt (dList dKV))) betw;
-        Some (SL ins' sz' all' gets' froms' betw')
+        Some (SL ins' sz' all' gets' froms' betw' [])
+    | L [I 0%N; ins; sz; all; gets; froms; betw; late] =>
+        do ins' <- dList (dTriple dB dB dNat) ins;
+        do sz' <- dNat sz;
+        do all' <- dList dKV all;
+        do gets' <- dList (dTriple dB dOB dBool) gets;
+        do froms' <- dList (dPair dB (dList dKV)) froms;
+        do betw' <- dList (dTriple dB dB (dOpt (dList dKV))) betw;
+        do late' <- dList dLate late;
+        Some (SL ins' sz' all' gets' froms' betw' late')
     | L [I 1%N; inputs; out; st] =>
         do inputs' <- dList (dList (dRes dKV)) inputs;
         do out' <- dList (dTriple dB dB dN) out;
@@ -53,12 +73,27 @@ Module C16.
         end
     end.
 
+  (* lookups interleaved with further inserts *)
+  Fixpoint late_ok (late : list (bytes * bytes * bytes * list kv * list kv * bool * nat)) (m : @sl bytes bytes) : bool :=
+    match late with
+    | [] => true
+    | (k, v, q, before, after, has, sz) :: rest =>
+        kvs_eqb (scan_from bcmp q m) before &&
+        match insert bcmp k v 1 m with
+        | None => false
+        | Some m' =>
+            kvs_eqb (scan_from bcmp q m') after && Bool.eqb (contains bcmp q m') has && Nat.eqb (size m') sz
+            && late_ok rest m'
+        end
+    end.
+
   Definition check (c : case) : bool :=
     match c with
-    | SL ins o_size o_all gets froms betw =>
+    | SL ins o_size o_all gets froms betw late =>
         match inserts bcmp ins [] with
         | None => false
         | Some m =>
+            late_ok late m &&
             Nat.eqb (size m) o_size
             && kvs_eqb (scan_all bcmp m) o_all
             && forallb (fun g => match g with (k, ov, oc) =>
